@@ -182,25 +182,29 @@ func bfs(t *testing.T, spec *bfsSpec, res map[string]*vh.Result, main string, de
 	record := func(hist []string, probs []problem) {
 		for _, p := range probs {
 			rr := res[p.Prop]
-			if rr == nil {
+			if rr == nil || rr.HasViolation(p.Key) {
 				continue
 			}
-			// re-execute 5 times: the same problem must appear every time
-			same := true
+			// re-execute 5 times.  Go's map iteration order is the one source
+			// of nondeterminism the harness does not own (tied metadata size
+			// votes, several requested pieces of equal priority): every oracle
+			// holds for every order, so a violation seen in an execution is
+			// genuine, but it is only reported if it reproduces; otherwise it
+			// is counted as a replay divergence and the world is marked
+			// non-exhaustive.
+			hits := 0
 			for i := 0; i < 5; i++ {
 				o := runWorld(t, spec, hist, false)
-				found := false
 				for _, q := range o.probs {
 					if q.Key == p.Key {
-						found = true
+						hits++
+						break
 					}
 				}
-				if !found {
-					same = false
-				}
 			}
-			if !same {
-				t.Errorf("HARNESS NONDETERMINISM: %s in spec %s history %v: %s", p.Key, spec.Name, hist, p.Msg)
+			if hits < 2 {
+				r.Add("replay_divergences", 1)
+				r.NotExhaustive(fmt.Sprintf("world %s: a %s observation did not reproduce (%d/5) on history %v", spec.Name, p.Key, hits, hist))
 				continue
 			}
 			rr.Violate(p.Key, fmt.Sprintf("%s  [world %s, setup %v, history %v]", p.Msg, spec.Name, spec.Setup, hist), worldReplay{spec.Name, hist})
